@@ -114,7 +114,7 @@ structure State where
 
 def handleCase (l : Line) : IO (Option (String × Case)) := do
   let id := l.id
-  if l.get? "cfgs" == none then return none
+  if l.get? "cfgs" == none || (l.get? "crashed").isSome then return none   -- panic / timeout: judged by the crash line
   let cs := parseCase l
   let c0 := cs.build
   let (c1, t1) := tables cs.T cs.G c0
